@@ -303,10 +303,95 @@ func hashCollisions(r rnd, perHash int) [][2]string {
 }
 
 // genC16: substitutions of weight 1..4 in valid strings (C16).
+
+// foldVariants: the string with one s / S replaced by U+017F (long s) or one k / K by U+212A (Kelvin sign): code points
+// whose case mapping or case folding lands on an ASCII letter.  Never valid Bech32.
+func foldVariants(s string) []string {
+	var out []string
+	for i := 0; i < len(s); i++ {
+		switch s[i] {
+		case 's', 'S':
+			out = append(out, s[:i]+"\u017f"+s[i+1:])
+		case 'k', 'K':
+			out = append(out, s[:i]+"\u212a"+s[i+1:])
+		}
+	}
+	return out
+}
+
+// encRaw: a string whose checksum is right for the byte string csHrp (each byte taken as a prefix character: high
+// three bits, low five bits - the natural extension of BIP-173 to any byte) in front of hrp: when hrp is not a valid
+// prefix, everything ELSE about the string is as valid as it can be, so only the prefix check can reject it.
+func encRaw(hrp, csHrp string, syms []byte) string {
+	out := []byte(hrp + "1")
+	for _, v := range append(append([]byte{}, syms...), csChecksum(csHrp, syms)...) {
+		out = append(out, csAlphabet[v])
+	}
+	return string(out)
+}
+
+// primingSeqs: every kind of rejected call, each followed at once by valid strings and by near misses of them, and
+// valid strings followed at once by their near misses.  What a call leaves behind (pooled scratch, a remembered
+// prefix, a running checksum, an error path that skips a clean-up) must not change the next answer.
+func primingSeqs(r rnd, dec func(string), n int) {
+	hrps := []string{"smr", "tk", "a", "iota", "sk1s", "test", "kk", "SMR", "TK"}
+	for k := 0; k < n; k++ {
+		hrp := hrps[k%len(hrps)]
+		ns := 8 * (1 + r.Intn(3))
+		syms := make([]byte, ns)
+		for i := range syms {
+			syms[i] = byte(r.Intn(32))
+		}
+		s := enc5(hrp, syms)
+		if hrp[0] < 'a' {
+			s = upperASCII(s)
+		}
+		sep := len(hrp)
+		sub := func(t string, i int, c byte) string { b := []byte(t); b[i] = c; return string(b) }
+		other := func(i int) byte { return otherCharsetChar(r, s[i]) }
+		rejects := []string{
+			sub(s, sep+3, 'b'), sub(s, len(s)-2, 'i'), sub(s, sep+1, 'o'), // not in the charset: data, checksum
+			s + "q", s[:len(s)-1], sub(s, sep+2, other(sep+2)), // checksum
+			upperASCII(s[:sep]) + strings.ToLower(s[sep:]), strings.ToLower(s[:sep]) + upperASCII(s[sep:]), // mixed case
+			s + strings.Repeat("q", 91), hrp, "1" + s[sep+1:], // length, separator, empty prefix
+			"\x7f" + s, " " + s, s[:sep+1] + "\u0161" + s[sep+2:], s[:sep+4] + "\xff" + s[sep+5:], // bytes
+			"",
+		}
+		near := append([]string{s, sub(s, sep+2, other(sep+2)), sub(s, len(s)-1, other(len(s)-1)), s}, foldVariants(s)...)
+		if hrp[0] >= 'a' {
+			near = append(near, upperASCII(s))
+			near = append(near, foldVariants(upperASCII(s))...)
+		}
+		for _, bad := range rejects {
+			dec(bad)
+			for _, f := range near {
+				dec(f)
+			}
+		}
+		for _, v := range foldVariants(s) {
+			dec(s)
+			dec(v)
+		}
+	}
+	// prefixes that are not ASCII but look like it to code that truncates a code point to its low byte, or that takes
+	// the bytes of the encoding one by one: the checksum is right under either reading
+	for _, c := range []rune{0x0161, 0x4E61, 0x0141, 0x1F171, 0x0173, 0xFF41} {
+		hrp := "a" + string(c) + "b"
+		trunc := "a" + string([]byte{byte(c)}) + "b"
+		syms := []byte{1, 2, 3, 4, 5, 6, 7, 16}
+		dec(encRaw(hrp, hrp, syms))
+		dec(encRaw(hrp, trunc, syms))
+		dec(encRaw(string(c), string(c), syms))
+		dec(encRaw(string(c), string([]byte{byte(c)}), syms))
+		dec(encRaw(trunc, trunc, syms)) // the truncated spelling itself is an ordinary prefix (when its bytes are printable)
+	}
+}
+
 func genC16(do func(string, M)) {
 	r := vRand(16)
 	n := vEnvInt("VERIF_N", 40)
 	dec := func(s string) { do("bech32.Decode", M{"s": vInts([]byte(s))}) }
+	primingSeqs(r, dec, 9)
 	// colliding human-readable parts: the valid string of one, then the other's HRP in front of the same data part
 	// (an HRP substitution of weight <= 4), in both orders
 	for _, pr := range hashCollisions(r, 3) {
@@ -499,6 +584,13 @@ func TestVerifDriver(t *testing.T) {
 		r := vRand(4)
 		n := vEnvInt("VERIF_N", 300)
 		dec := func(s string) { do("bech32.Decode", M{"s": vInts([]byte(s))}) }
+		primingSeqs(r, dec, 9)
+		// prefixes beyond every limit handed to Encode (with and without data)
+		for _, hl := range []int{83, 84, 85, 89, 90, 91, 92, 100, 255, 256, 1000, 70000} {
+			for _, dl := range []int{0, 1, 20} {
+				do("bech32.Encode", M{"hrp": vInts([]byte(strings.Repeat("a", hl))), "data": vInts(make([]byte, dl))})
+			}
+		}
 		// every letter as the ONLY letter of its case: in a prefix handed to Encode, and in a string handed to Decode
 		{
 			const abc = "abcdefghijklmnopqrstuvwxyz"
